@@ -18,6 +18,11 @@ from .asmcheck import x86_reg, x86_mem
 W = 1 << 64
 
 
+class StaleFlag(Exception):
+    """an add-with-carry consumes a flag that no instruction on the path defines as a carry (or clears)"""
+    pass
+
+
 class Unsupported(Exception):
     pass
 
@@ -476,7 +481,11 @@ class X86Machine:
 
     def need_flag(self, f, name, ins):
         if f is None:
-            raise Unsupported('%s consumed at %#x (%s) is not a tracked carry' % (name, ins.addr, ins.text))
+            # the flag was last written by an instruction for which it is not a carry (signed overflow of full-range operands, a
+            # subtraction's / shift's leftover) or never written: a carry chain that starts from it computes a value that depends on
+            # that stale bit
+            raise StaleFlag('%s consumed at %#x (%s) is neither a cleared flag nor the carry of an addition chain: the chain starts from a '
+                            'stale flag' % (name, ins.addr, ins.text))
         return f
 
     # ---- execution ----
@@ -1285,6 +1294,10 @@ def rule_wordalg(ctx, cfg, outdir, rule='R-WORDALG'):
         fn, insns, order, addr = tbl[name]
         try:
             res = analyse_routine(insns, order, addr, name, arch)
+        except StaleFlag as e:
+            n += 1
+            ctx.ob(rule, False, 'wordalg|%s|flags' % name, name, '%s: %s' % (name, e), cfg=cfg)
+            continue
         except Unsupported as e:
             raise bm.AnalysisBroken('R-WORDALG cannot model %s: %s' % (name, e))
         for (pat, ok, msgs, npaths, notes, natoms) in res:
